@@ -26,6 +26,7 @@ try:
                 res[p] = v or [f"exit {rc}"]
 finally:
     sh("git -C /repo checkout -- .")
+    sh("cd /verif/r2l && ./target/debug/r2l targets.txt /repo/src ../lean/Grenad/Generated/Src > /dev/null")  # generated Lean back to the unchanged tree
 d = os.path.join(ROOT, "harmless", sid); os.makedirs(d, exist_ok=True)
 shutil.copy(os.path.join(src, "patch.diff"), d)
 if os.path.exists(os.path.join(src, "notes.md")): shutil.copy(os.path.join(src, "notes.md"), d)
